@@ -301,6 +301,24 @@ def main(tier, seed, replay=None):
                     rep.violation("input", "[find(%s, %s), find_last(%s, %s)] gives %s, the first / last positions are %d / %d" % (lit, psrc, lit, psrc, out[:2], first, last),
                                   check="find-kinds", program="find(%s, %s)" % (lit, psrc))
     rep.oblige("find / find_last on lists of NULL, ints, strings, booleans, decimals and lists return the first / last position or -1", nb == 0, "%d wrong" % nb)
+    # "insert_at / delete_at change exactly one position" of ONE sequence: a slice or sublist of a list is a sequence of its own - changing it
+    # in place leaves the list it was taken from as it was, and the other way round (every bound, also those that cover the whole list)
+    na = 0
+    idx = ["0", "1", "2", "3", "4", "9", "-1", "-2", "-3", "-4", "-9", "*"]
+    for L in ["[]", "['a']", "['a', 'b']", "['a', 'b', 'c']", "['a', 'b', 'a', 'c']"]:
+        forms = ["s[%s to %s]" % (a, b) for a in idx if a != "*" for b in idx] + ["sublist(s, %s)" % a for a in idx if a != "*"] + \
+                ["sublist(s, %s, %s)" % (a, b) for a in idx if a != "*" for b in idx if b != "*"] + ["s + []", "[] + s", "s * 1", "s - []", "[x for x in s]", "sorted(s)", "reverse(s)"]
+        for f in forms:
+            pre = "require List unqualified; " if f.startswith("reverse") else ""
+            prog = pre + "def s = %s; def t = do %s catch all [] end; def n = length(t); insert_at(t, 0, 'q'); def ok1 = s == %s and length(t) == n + 1; " \
+                         "delete_at(t, 0); if length(s) > 0 then delete_at(s, 0); [ok1, length(t) == n, length(s) == max(length(%s) - 1, 0)]" % (L, f, L, L)
+            out = impl.run_src(I, prog)
+            rep.count()
+            if out[:2] != ("val", "(list (b 1) (b 1) (b 1))"):
+                na += 1
+                rep.violation("input", "%s gives %s: a change in place of the slice shows in the list it was taken from (or the other way round)" % (prog, out[:2]),
+                              check="slice-alias", program=prog, want="(list (b 1) (b 1) (b 1))")
+    rep.oblige("slices, sublists and the other non-mutating list operations give sequences of their own: in-place changes of one do not show in the other", na == 0, "%d wrong" % na)
     return rep.finish()
 
 
